@@ -262,14 +262,21 @@ impl Runner<W> for ReplayRunner {
 }
 
 /// `run_and_exit` panics iff the run failed, and its message names only non-zero categories.
-pub fn check_run_and_exit(stream: &[Ev], allow_skipped: &HashMap<usize, bool>, fail_on_skipped: bool) -> Vec<Violation> {
+pub fn check_run_and_exit(stream: &[Ev], allow_skipped: &HashMap<usize, bool>, fail_on_skipped: bool, libtest: bool) -> Vec<Violation> {
     let keys: Vec<Key> = stream.iter().map(decode).collect();
     let x = expected(&keys, allow_skipped);
     let exp = x.failed(fail_on_skipped);
     let shape = if x.nonfinal_hook_failures > 0 { "non-final-hook-failure" } else { "other" };
     let sink = Sink::default();
     let opts = cli::Opts::<cli::Empty, cli::Empty, BCli, cli::Empty> { re_filter: None, tags_filter: None, parser: cli::Empty, runner: cli::Empty, writer: bcli(), custom: cli::Empty };
-    let res = if fail_on_skipped {
+    let lopts = cli::Opts::<cli::Empty, cli::Empty, LCli, cli::Empty> { re_filter: None, tags_filter: None, parser: cli::Empty, runner: cli::Empty, writer: LCli::default(), custom: cli::Empty };
+    let res = if libtest && fail_on_skipped {
+        let c = Cucumber::<W, _, (), _, _, cli::Empty>::custom(NullParser, ReplayRunner(stream.to_vec()), nl(&sink)).fail_on_skipped().with_cli(lopts);
+        panic::catch_unwind(AssertUnwindSafe(|| block_on(c.run_and_exit(()))))
+    } else if libtest {
+        let c = Cucumber::<W, _, (), _, _, cli::Empty>::custom(NullParser, ReplayRunner(stream.to_vec()), nl(&sink)).with_cli(lopts);
+        panic::catch_unwind(AssertUnwindSafe(|| block_on(c.run_and_exit(()))))
+    } else if fail_on_skipped {
         let c = Cucumber::<W, _, (), _, _, cli::Empty>::custom(NullParser, ReplayRunner(stream.to_vec()), sb(&sink)).fail_on_skipped().with_cli(opts);
         panic::catch_unwind(AssertUnwindSafe(|| block_on(c.run_and_exit(()))))
     } else {
